@@ -7,6 +7,7 @@
 use std::env;
 use std::process::exit;
 
+mod c03;
 mod c05;
 mod c07;
 mod c12;
@@ -22,7 +23,7 @@ pub struct Family {
 }
 
 fn families() -> Vec<Family> {
-    vec![c20::family(), c15::family(), c07::family(), c05::family(), c12::family()]
+    vec![c20::family(), c15::family(), c07::family(), c05::family(), c12::family(), c03::family()]
 }
 
 pub fn hex(b: &[u8]) -> String {
